@@ -100,6 +100,11 @@ type allocInfo struct {
 // Enc is the symbolic executor for one verification unit.
 type Enc struct {
 	onceCells   map[*ssa.Function]map[*ssa.Alloc]*ssa.Store
+	onceVals    map[*Term]*Term
+	yieldParam  *Term  // the callback parameter of a unit under the `yields` protocol (nil: none)
+	yieldName   string
+	yieldCells  map[*Term]bool
+	yieldLits   map[*ssa.MakeClosure]bool // literals that capture the callback: true once verified as an iteration body
 	recoverMode int // 0: recover() is unknown, 1: no panic is in flight (nil), 2: a panic is being recovered (non-nil)
 	tb      *TB
 	L       *Loaded
@@ -783,6 +788,7 @@ type Frame struct {
 	edge         map[[2]*ssa.BasicBlock]*Term
 	rets         []retInfo
 	parent       *Frame
+	callSite     *ssa.Call // the call this frame was inlined for
 	entry        State
 	con          *FuncContract
 	loops        map[*ssa.BasicBlock]int // loop head -> ordinal (source order)
@@ -1170,6 +1176,7 @@ func (e *Enc) cutLoop(fr *Frame, head *ssa.BasicBlock, st *State) {
 	}
 	ws := e.loopWrites(fr, head)
 	e.havocWrites(st, ws, fmt.Sprintf("loop%d", ord))
+	e.havocYield(st)
 	// automatic facts of go/ssa's range-over-slice lowering: -1 <= rangeindex
 	for _, phi := range phis {
 		if phi.Comment == "rangeindex" {
@@ -1548,7 +1555,7 @@ func (e *Enc) havocAll(st *State, why string) {
 	st.ep = e.newEpoch()
 	// registers declared `immutable` (fields that are not written after construction) keep their contents
 	for n, t := range old.heap {
-		if e.immutableReg(n) {
+		if e.immutableReg(n) || strings.HasPrefix(n, "G:$yield") {
 			st.heap[n] = t
 		}
 	}
